@@ -29,8 +29,9 @@ PROFILE = r'[a-z0-9][a-z0-9+.\-]*'
 def extract_str_template(src, rep):
     f = src.func(SITE + '.str')
     rep.saw_func(f)
-    arch = ('rec', {'enabled': ('bool',), 'arch': ('str',)})
-    br = ('rec', {'enabled': ('bool',), 'profile': ('str',)})
+    # (pairs that are also named tuples: read by name, by position or by unpacking)
+    arch = ('rec', {'enabled': ('bool',), 'arch': ('str',), '__order__': ['enabled', 'arch']})
+    br = ('rec', {'enabled': ('bool',), 'profile': ('str',), '__order__': ['enabled', 'profile']})
     dep = ('rec', {'name': ('str',), 'archqual': ('opt', ('str',)), 'version': ('opt', ('tuple', [('str',), ('str',)])),
                    'arch': ('opt', ('list+', arch)), 'restrictions': ('opt', ('list+', ('list+', br)))})
     pname = f.params()[0]
@@ -371,6 +372,45 @@ def r3_mapping(rep, src):
     # the writer side of the polarity: decided by the template rules R1/R2 (the "!" literal is part of the extracted template)
 
 
+def r7_documented_encoding(rep, src):
+    """the structure is documented with `arch` as a list of pairs <enabled, arch> and `restrictions` as lists of tuples
+    <enabled, profile> ("available as named tuples"): PkgRelation.str interpreted (sa.heap) on a relation whose pairs are plain
+    tuples and on the same relation with named tuples -- both give the same text, neither raises"""
+    from .. import heap as H
+    mod = src.mod('deb822')
+    fs = src.func(SITE + '.str')
+    rep.saw_func(fs)
+    texts = {}
+    for label in ('plain tuples', 'named tuples'):
+        heap = H.Heap(mod)
+        it = H.Interp(heap)
+
+        def pair(names, vals):
+            return tuple(vals) if label == 'plain tuples' else ('record', names[0], tuple(names[1:]), tuple(vals))
+        dep = heap.new_dict()
+        for k_, v_ in (('name', 'pkg'), ('archqual', None), ('version', ('>=', '1.0')),
+                       ('arch', heap.new_list([pair(('ArchRestriction', 'enabled', 'arch'), (True, 'amd64')), pair(('ArchRestriction', 'enabled', 'arch'), (False, 'i386'))])),
+                       ('restrictions', heap.new_list([heap.new_list([pair(('BuildRestriction', 'enabled', 'profile'), (True, 'stage1')),
+                                                                     pair(('BuildRestriction', 'enabled', 'profile'), (False, 'nocheck'))])]))):
+            heap.dict_set(dep, k_, v_)
+        rels = heap.new_list([heap.new_list([dep])])
+        try:
+            r = it.call(H.Closure(fs.node, {}, None, fs.cls), [rels])
+            texts[label] = r.concrete() if hasattr(r, 'concrete') else r
+        except H.Raised as x:
+            texts[label] = ('raises', x.exc, x.lineno)
+    what = 'the writer reads the pairs of arch / restrictions as pairs'
+    want = 'pkg (>= 1.0) [amd64 !i386] <stage1 !nocheck>'
+    if texts['plain tuples'] == texts['named tuples'] == want:
+        rep.ok('C13.R7', fs.site, what, 'plain tuples and named tuples give %r' % want)
+    elif isinstance(texts['plain tuples'], tuple):
+        rep.fail('C13.R7', fs.site, what, 'a relation whose architecture list / restriction formula holds plain pairs (True, "amd64") -- the documented encoding, equal to what the parser '
+                 'returns -- makes str() raise %s (line %d): the pairs are read through attribute names that only the parser\'s named tuples have'
+                 % (texts['plain tuples'][1], texts['plain tuples'][2]), where='%s:%d' % (mod.relpath, texts['plain tuples'][2] or fs.node.lineno))
+    else:
+        rep.fail('C13.R7', fs.site, what, 'str() gives %r for plain pairs and %r for named tuples; expected %r' % (texts['plain tuples'], texts['named tuples'], want), where=fs.where)
+
+
 def r6_delimiter_searches(rep, src):
     """where the reader cuts the text of one dependency at the first occurrence of a character (find / index / partition / split with
     a constant) and matches a regex against the part in front of the cut, that character must not be one the regex can match: else
@@ -440,3 +480,4 @@ def check(src, rep, tier):
         rep.guard('C13.R2', r2_separators, src, *out)
     rep.guard('C13.R3', r3_mapping, src)
     rep.guard('C13.R6', r6_delimiter_searches, src)
+    rep.guard('C13.R7', r7_documented_encoding, src)
